@@ -316,10 +316,17 @@ def run_history(root_name, hist):
         for d in compare(model, watched)[:6]:
             problems.append('after step %d (%s on %s): %s' % (step, op, X.__name__, d))
         # behavioural probes for every operation applied so far
-        for s2, op2, regs2 in applied:
+        # ... and for the next two operations *before* they are applied: a dispatch memo filled by these probes
+        # (a negative entry) must not survive the registration that follows
+        upcoming = [(s3, None, None) for s3 in slots[step + 1:step + 3]]
+        for s2, op2, regs2 in applied + upcoming:
             vis_l = lambda attr, key: {n for n, c in loaders.items() if (model.effective(c, attr) or {}).get(key) is not None}
             checks = []
-            kinds = {k for k, _ in regs2}
+            if regs2 is None:
+                kinds = {'cons', 'mcons', 'ires', 'pres'} if is_loader else {'rep', 'mrep'}
+                regs2 = [('none', type(None))]
+            else:
+                kinds = {k for k, _ in regs2}
             if 'cons' in kinds:
                 vis = vis_l('yaml_constructors', s2.tag)
                 checks += [(n, c, 'cons', probe_load(c, '%s x' % s2.tag), ['C', s2.i], n in vis) for n, c in loaders.items()]
